@@ -156,9 +156,18 @@ func wideMapCase(k *engine.Case) {
 		switch x := r.Intn(10); {
 		case x < 4:
 			val++
-			wide.Set(key.v, box(val))
-			single.Set(key.v, box(val))
-			k.Logf("Set(%s,%d)", key.repr, val)
+			if r.Intn(6) == 0 {
+				// a map stores any value, also the untyped nil (a tombstone / negative entry):
+				// the key is then present with the value nil
+				wide.Set(key.v, nil)
+				single.Set(key.v, nil)
+				k.Logf("Set(%s,<nil>)", key.repr)
+				k.Count("map_set_nil_value", 1)
+			} else {
+				wide.Set(key.v, box(val))
+				single.Set(key.v, box(val))
+				k.Logf("Set(%s,%d)", key.repr, val)
+			}
 			k.Count("map_set", 1)
 		case x < 7:
 			wv, wok := wide.Get(key.v)
